@@ -22,6 +22,15 @@ NOTES.update({
  "C05r6B": "not covered: needs a table whose card demand exceeds the deck (36 cards, 4 hole cards, 8-9 seats); the unchanged engine panics on such a table at the turn, so the workloads only generate tables the deck can serve (stated assumption of C05/C06) and the clamp is never reached",
  "C17r6A": "not covered: the button jump needs zero playable seats before the move (everybody who played left or sits out, only newcomers on closed seats remain); C17 states where the button goes only 'when at least two players were able to play before moving', and the C08 position clauses still hold after the change",
 })
+NOTES.update({
+ "C07r7A": "not covered: the cached JSON goes stale only when the state changes without an event between two GetStateJSON calls at one wait point - through per-seat PayAnte/PayBlinds on a Player handle or the engine's internal steps (Burn, Deal, SetCurrentPlayer). The operation alphabet posts antes and blinds through the game-level operations; on the unchanged tree the per-seat route cannot finish the step without a manual EmitEvent (and posts a blind again on every call)",
+ "C08r7B": "not covered: needs ApplyStates with a smaller Max than the manager was created with and players left on the seats beyond it (see C17r4A); the seat histories restore documents of the table's own size",
+ "C10r7B": "not covered: needs a custom ranking table in GameOptions.CombinationPowers (three of a kind above a straight); C03 and C10 quantify over the two shipped tables and the reference evaluator knows exactly those two category orders",
+ "C12r7B": "not caught by the C12 check, caught by the C11 check (C11/missing-raise): the change takes the raise off the offer of a player who holds the minimum bet at the start of the round; C12 judges raise requests that are on offer (a request that is not on offer is refused on the unchanged tree as well - C11 states who is offered a raise)",
+ "C13r7A": "not covered: needs the antes to be collected seat by seat through Player handles and the hand advanced with a manual EmitEvent(AntePaid) - the engine's internal building blocks, outside the operation alphabet (DESIGN 3.1)",
+ "C19r7B": "not covered: needs the host's AssignPlayersFn to fail once (fault injection in the callbacks), see C20r4A",
+ "C20r7A": "not covered: needs the host's AssignPlayersFn to fail once (fault injection in the callbacks), see C20r4A",
+})
 rows = []
 for rf in sorted(glob.glob(f"{DST}/results/*.json")):
     key = os.path.basename(rf)[:-5]
